@@ -353,7 +353,8 @@ func vfNewC05Env() (e *vfC05Env, err error) {
 				return true
 			}
 			for _, id := range ids {
-				if p, found := storage.Find(id); found {
+				ip, _ := netip.ParseAddr(id)
+			if p, found := storage.FindLoose(ip, id); found {
 					return !p.IgnoreStatistics
 				}
 			}
